@@ -285,17 +285,21 @@ def lattice_kwargs(cfg, spell=None):
 # --------------------------------------------------------------------------
 # PWL calibration configurations (valid by construction).
 SPACINGS = [1e-2, 0.5, 1.0, 1.0, 3.0, 100.0]
+# with gaps far below 1e-3 (neighbouring quantile keypoints); used where the
+# property quantifies over "any positive keypoint spacing" (C04).
+SPACINGS_FINE = [2e-4, 1e-3, 1e-2, 0.5, 1.0, 1.0, 3.0, 100.0]
 
 
 @st.composite
-def pwl_keypoints(draw, min_k=2, max_k=8):
+def pwl_keypoints(draw, min_k=2, max_k=8, spacings=None):
+  spacings = spacings or SPACINGS
   k = draw(st.integers(min_k, max_k))
   start = draw(st.sampled_from([-100.0, -1.0, 0.0, 0.5, 10.0]))
   if draw(st.booleans()):
-    gap = draw(st.sampled_from(SPACINGS))
+    gap = draw(st.sampled_from(spacings))
     gaps = [gap] * (k - 1)
   else:
-    gaps = [draw(st.sampled_from(SPACINGS)) for _ in range(k - 1)]
+    gaps = [draw(st.sampled_from(spacings)) for _ in range(k - 1)]
   kp = [start]
   for g in gaps:
     kp.append(kp[-1] + g)
@@ -309,9 +313,9 @@ def pwl_keypoints(draw, min_k=2, max_k=8):
 
 @st.composite
 def pwl_config(draw, max_k=8, max_units=3, allow_cyclic=True,
-               iters=(0, 1, 2, 8, 30)):
+               iters=(0, 1, 2, 8, 30), spacings=None):
   """Valid PWLCalibration constraint configuration."""
-  kp = draw(pwl_keypoints(max_k=max_k))
+  kp = draw(pwl_keypoints(max_k=max_k, spacings=spacings))
   mono = draw(st.sampled_from([-1, 0, 1, 1]))
   conv = draw(st.sampled_from([0, 0, -1, 1]))
   cyclic = False
